@@ -150,8 +150,12 @@ func (c *client) CasByVersion(ctx context.Context, record kvs.Record) (kvs.Recor
 		return err
 	}, key)
 	if err == redis.TxFailedErr {
-		// the key was changed by another writer between WATCH and EXEC
+		// the key was changed by another writer between WATCH and EXEC: it has
+		// another version now, or it was deleted (expired) and does not exist anymore
 		err = errors.ErrConflict
+		if _, gerr := c.Get(ctx, record.Key); gerr != nil {
+			err = gerr
+		}
 	}
 	return record, err
 }
